@@ -69,6 +69,17 @@ def generate(rng, seed, index, tier):
             kw["scaling_dual"] = "y0"
     kw["iteration_limit"] = int(rng.integers(4, TIERS[tier]["cap"] + 1))
     kw = gen.quiet_params(kw)
+    if spec["m"] and rng.random() < 0.12:
+        # the formulation in which nothing between the callbacks and the core copies anything: equality rows with
+        # right-hand side zero, no scaling - the core (and the derivative check) work on the caller's own arrays
+        v = np.where(np.isfinite(np.array(spec["cl"], float)), np.array(spec["cl"], float), np.array(spec["cu"], float))
+        spec["b"] = np.array(spec["b"], float) + np.round(v, 3)
+        spec["cl"] = np.zeros(spec["m"])
+        spec["cu"] = np.zeros(spec["m"])
+        for k_ in ("scaling_type", "scaling", "scaling_primal", "scaling_dual"):
+            kw.pop(k_, None)
+        if fam in ("qp", "nlp") and rng.random() < 0.5:
+            kw["deriv_check"] = str(rng.choice(["CheckFirst", "CheckAll"]))
     if fam in ("qp", "nlp") and rng.random() < 0.15:
         # the opt-in derivative check evaluates the callbacks at perturbed points: what it gets back is caller-owned too
         kw["deriv_check"] = str(rng.choice(["CheckFirst", "CheckAll", "CheckSecond"]))
